@@ -118,7 +118,9 @@ let op_of_string = function
   | "OPointOnSurface" -> Some OPointOnSurface | "OIsSimple" -> Some OIsSimple
   | "ODumpCoordinates" -> Some ODumpCoordinates | "OReverse" -> Some OReverse | "OForce2D" -> Some OForce2D
   | "OValidate" -> Some OValidate | "OMinAreaRect" -> Some OMinAreaRect | "OMinWidthRect" -> Some OMinWidthRect
-  | "OUnaryUnion" -> Some OUnaryUnion | "OWKB" -> Some OWKB | "OWKT" -> Some OWKT | "OGeoJSON" -> Some OGeoJSON
+  | "OUnaryUnion" -> Some OUnaryUnion | "OForceCW" -> Some OForceCW | "OForceCCW" -> Some OForceCCW
+  | "OIsCW" -> Some OIsCW | "OIsCCW" -> Some OIsCCW | "OTransformXY" -> Some OTransformXY
+  | "ODensify" -> Some ODensify | "OSimplify" -> Some OSimplify | "OSnapToGrid" -> Some OSnapToGrid | "OWKB" -> Some OWKB | "OWKT" -> Some OWKT | "OGeoJSON" -> Some OGeoJSON
   | "OTWKB" -> Some OTWKB | "OIntersects" -> Some OIntersects | "ODistance" -> Some ODistance
   | "ORelate" -> Some ORelate | "OExactEquals" -> Some OExactEquals | "OEquals" -> Some OEquals
   | "ODisjoint" -> Some ODisjoint | "OTouches" -> Some OTouches | "OContains" -> Some OContains
@@ -181,7 +183,7 @@ let judge_neutral (op : opname) (w : which) (recv : string) (dumpA : string) (du
      | _ -> want "an empty geometry" false)
   | AEmptyCollection -> want "GEOMETRYCOLLECTION EMPTY" (c0 = "g:GC 0 0" && err_ok)
   | ASameForce2D -> let e = "g:" ^ idump (force_geom Z0 XY (a ())) in want e (c0 = e)
-  | ASame -> let e = "g:" ^ idump (a ()) in want e (c0 = e)
+  | ASame -> let e = "g:" ^ idump (a ()) in want e (c0 = e && err_ok)
   | AEmptySequence ->
     (match String.split_on_char ':' c0 with
      | "q" :: _ :: "0" :: _ -> None
